@@ -618,8 +618,8 @@ class C04(Oracle):
                 exp = {'on_status_overflow': int(ovf_now), 'on_status_underflow': int(udf_now),
                        'on_status_inaccuracy': int(inacc_now), 'on_value_change': 1}
                 for cid in cbs:
-                    if cid < 0:
-                        continue
+                    if cid < 0 or cid in st.extra.get('f7_cids', ()):
+                        continue    # (a callback that unregistered itself during this write is owed nothing more)
                     got_ev = {}
                     for (c, site, k) in st.cb_events:
                         if c == cid and k == st.dest:
